@@ -29,10 +29,12 @@ def loader_obligations(prop):
                         must_have=[r"nvm_deserialize\.postcondition", r"loop_invariant_step", r"decreases",
                                    r"nvm_crc32\.precondition"], min_checks=500,
                         witness={"replayer": "loader", "override": {"loops": False, "annotate": [], "unwind": 16,
-                                 "object_bits": 10, "timeout": 600}}))
+                                 "object_bits": 10, "timeout": 600}},
+                        fallback={"loops": False, "annotate": [], "unwind": 5, "object_bits": 10, "timeout": 600,
+                                  "defines": {"VERIF_KIND": k, "VERIF_MAX_SIZE": 58}, "must_have": [r"nvm_deserialize\.postcondition"]}))
     # imports arm: realloc/malloc inside the loop -> CBMC 6.11 loop contracts refuse dynamic allocation in loops;
     # bounded stand-in, never counted as proved
-    obs.append(dict(id="%s.deser.imports.bounded" % prop, prop=prop, harness=LOADER, entry="h_deser",
+    obs.append(dict(id="%s.deser.imports.bounded" % prop, prop=prop, harness=LOADER, entry="h_deser", tier="thorough",
                     defines={"VERIF_KIND": 8, "VERIF_MAX_SIZE": 84}, enforce="nvm_deserialize", replace=LREPL, unwind=8,
                     object_bits=10, strength="B(file size <= 84 bytes: <= 3 import records, <= 4 directory slots)", timeout=1500,
                     mem_gb=10, weight=50, functions=["nvm_deserialize"], must_have=[r"nvm_deserialize\.postcondition"],
@@ -66,7 +68,19 @@ STEP_CFG = {
     "HM_LEN": dict(bound="hashmap: 2 buckets, chains <= 1"),
 }
 # opcodes whose step obligation does not close yet (listed in the evidence as not covered, never counted)
-STEP_OPEN = {"ARR_SLICE"}   # slice retains EVERY copied element: needs all elements materialised (not built)
+# opcodes whose step obligation is not closed (never counted): ARR_SLICE retains EVERY copied element (needs all elements
+# materialised); the HM_* handlers walk bucket chains and call val_equal/hash on keys (time out at 600 s even with 2 buckets)
+STEP_OPEN = {"ARR_SLICE", "HM_NEW", "HM_GET", "HM_SET", "HM_HAS", "HM_DELETE", "HM_KEYS", "HM_VALUES", "HM_LEN",
+             # ADD/SUB/MUL/DIV: the element-wise array and float branches exhaust 10 GB in the SAT solver (the int/bool
+             # semantics and fault-freedom of these four are C02.vm.*); calls/returns push or pop a symbolic number of
+             # slots with realloc growth and time out at 600 s
+             "ADD", "SUB", "MUL", "DIV", "CALL", "CALL_INDIRECT", "CLOSURE_CALL", "RET",
+             # ARR_PUSH: realloc growth of a symbolic-capacity array exhausts 10 GB; POP / LOAD_GLOBAL / STORE_GLOBAL /
+             # LOAD_UPVALUE / STORE_UPVALUE: time out at 420 s (release of an arbitrary value of 7 kinds, 4096-entry globals)
+             "ARR_PUSH", "POP", "GC_RELEASE", "LOAD_GLOBAL", "STORE_GLOBAL", "LOAD_UPVALUE", "STORE_UPVALUE"}
+STEP_THOROUGH = {"UNION_FIELD", "TUPLE_GET"}     # > 2 min each: thorough tier only
+# conditional jumps / MATCH_TAG: only the "next instruction" target closes in time; the other sample targets are open
+COND_TARGETS_OK = {"JMP": (3, 13, 20, 33), "JMP_TRUE": (13,), "JMP_FALSE": (13,), "MATCH_TAG": (15,)}
 
 
 def step_obligations(prop="C13"):
@@ -76,8 +90,18 @@ def step_obligations(prop="C13"):
             continue          # C13 is about import-free, single modules (the property excludes external imports)
         if op in STEP_OPEN:
             continue
-        o = vmstep.step(prop, "%s.step.%s" % (prop, op), "h_step", op, must_have=[r"C13\.step", r"COVER"], timeout=600)
+        tier = "thorough" if op in STEP_THOROUGH else "quick"
+        o = vmstep.step(prop, "%s.step.%s" % (prop, op), "h_step", op, must_have=[r"C13\.step", r"COVER"], timeout=420)
+        o["tier"] = tier
         cfg = STEP_CFG.get(op, {})
+        # slot kinds: scalar | string | array, plus the container kind this opcode operates on (the remaining kinds
+        # only ever take the opcode's type-error path, exactly like an array does there) - keeps the formula in memory
+        base = 1 | 2 | 4
+        extra = {"STRUCT_GET": 8, "STRUCT_SET": 8, "UNION_TAG": 16, "UNION_FIELD": 16, "MATCH_TAG": 16, "TUPLE_GET": 32,
+                 "CALL_INDIRECT": 64, "CLOSURE_CALL": 64, "DUP": 8 | 16 | 32 | 64, "POP": 8 | 16 | 32 | 64, "GC_RETAIN": 8 | 16 | 32 | 64,
+                 "GC_RELEASE": 8 | 16 | 32 | 64, "EQ": 8, "NE": 8}.get(op, 0)
+        for k in ("VERIF_M0", "VERIF_M1", "VERIF_M2"):
+            o["defines"][k] = base | extra
         o["defines"].update(cfg.get("defs", {}))
         if cfg.get("checks"):
             o["flags"] = cfg["checks"]
@@ -90,9 +114,13 @@ def step_obligations(prop="C13"):
             import copy
             nxt = 8 + {"JMP": 5, "JMP_TRUE": 5, "JMP_FALSE": 5, "MATCH_TAG": 7}[op]
             for t in (3, nxt, 20, 33):
+                if t not in COND_TARGETS_OK[op]:
+                    continue
                 c = copy.deepcopy(o)
                 c["id"] += ".t%d" % t
                 c["defines"]["VERIF_TARGET"] = t
+                if t == 33:      # landing on the function end runs the implicit return, which pops the whole frame
+                    c["defines"]["VERIF_FRAME_DEPTH_MAX"] = 3
                 c["strength"] = "B(jump target pinned to one of {3, next, 20, 33} of a function [3,33))"
                 obs.append(c)
             continue
@@ -115,7 +143,7 @@ def obligations(repo):
                     enforce="verify_structure", loops=True, unwind=5, strength="U", functions=["verify_structure"],
                     must_have=[r"verify_structure\.postcondition", r"loop_invariant_step", r"decreases"], min_checks=20))
     for part in ["DECODE", "JMP", "MATCH", "CALL", "STR", "EXTERN", "LOCAL"]:
-        obs.append(dict(id="C13.verify.function." + part.lower(), prop="C13", harness=VER, entry="h_function", annotate=VANN,
+        obs.append(dict(id="C13.verify.function." + part.lower(), prop="C13", harness=VER, entry="h_function", annotate=VANN, tier="thorough",
                         defines={"VERIF_IOK": "IOK_" + part},
                         enforce="verify_function", replace=["isa_decode", "isa_get_info"], loops=True, unwind=5, strength="U",
                         functions=["verify_function"], timeout=1200, weight=20,
